@@ -676,6 +676,9 @@ func (g *Gen) havocHeapG(st *State, names map[string]bool, ghosts bool) {
 			if strings.HasPrefix(k, "GG_") && !ghosts {
 				continue // global ghosts are changed only through contracts
 			}
+			if g.isStable(k) {
+				continue // `stable` clause: assumed not written by callees / loops without an explicit store
+			}
 			n := g.fresh("H_" + k)
 			g.declare(n, g.heapSorts[k])
 			st.heap[k] = n
@@ -972,8 +975,21 @@ func (g *Gen) execInstr(in ssa.Instruction, st *State) {
 	case *ssa.Defer:
 		g.execDefer(x, st)
 	case *ssa.Go:
-		g.note(fmt.Sprintf("goroutine started in %s: effects of the spawned function are not modelled (sequential semantics)", g.key))
-		g.fireCallRules(x.Common(), nil, st, "go ")
+		g.note(fmt.Sprintf("goroutine started in %s: the spawned function is treated as an unknown call at the go statement (arbitrary heap effect there; later interleavings are not modelled - sequential semantics)", g.key))
+		m := g.callRulesPre(x.Common(), st, "go ")
+		fn := false
+		for _, r := range m {
+			if r.FrameNothing {
+				fn = true
+			}
+		}
+		if !fn {
+			g.havocForCall(x.Common(), st)
+		}
+		g.callRulesPost(m, x.Common(), nil, st, "true")
+	case *ssa.MakeChan:
+		g.note("channel created in " + g.key + ": channels are opaque values; receives yield arbitrary values, sends and close have no effect, blocking is not modelled")
+		g.setVal(x, g.freshVal("ch", x.Type(), st, st.reach))
 	case *ssa.RunDefers:
 		g.runDefers(st)
 	case *ssa.If, *ssa.Jump:
